@@ -85,8 +85,8 @@ def run(ctx):
                  (nm != 'body' and q.reads_member(c.args[0], 'FIX8::Message::_' + nm))
         ctx.check(forced == 0 and tgt_ok and q.escape_path(ccfg, [ccfg.entry], {ccfg.vertex_of(c)}) is None, 'R11.2', 'FIX8::Message::clone#%s' % nm, c.loc,
                   '%s: copy_legal(into the clone\'s %s, force=false) on every path' % (nm, nm))
-    mk = [n for n in cl.all_nodes() if n.k in ('CallExpr', 'CXXMemberCallExpr') and n.children and n.children[0].strip(casts=True).k == 'MemberExpr' and
-          n.children[0].strip(casts=True).decl['n'] == '_do']
+    mk = [n for n in cl.all_nodes() if n.is_call and n.k != 'CXXConstructExpr' and
+          any(x.strip(casts=True).k == 'MemberExpr' and x.strip(casts=True).decl['n'] == '_do' for x in ([n.obj] if n.obj is not None else []) + n.children[:1])]
     ctx.check(len(mk) == 1 and mk[0].args and mk[0].args[0].strip(casts=True).value == 1, 'R11.2', 'FIX8::Message::clone#deep', cl.loc,
               'the clone is created deep (with header, trailer and group containers)')
     # copy_legal
